@@ -34,7 +34,8 @@ def value_expr_hook(an, e, st, frame):
         from ..state import is_token
         b = an.ev(e.value, st, frame)         # a local alias of a slot (`received_part = self._part`) carries the slot's token
         if is_token(b):
-            return 'v:' + b
+            # read through an alias after the part was handed over: the receiver may already have changed its value
+            return ('v-late:' if 'handed' in st.flags else 'v:') + b
     return NotImplemented
 
 
